@@ -75,26 +75,31 @@ func buildBlockStatements(closureContext *parser.ClosureContext) []core_domain.C
 	for _, blockStatement := range statementsContext.AllBlockStatement() {
 		var result *core_domain.CodeDependency = nil
 
-		commandExprCtx := blockStatement.GetChild(0).GetChild(0).GetChild(0).(*parser.CommandExpressionContext)
-		pathExpression := commandExprCtx.GetChild(0).(*parser.PostfixExprAltForExprContext).GetChild(0).(*parser.PostfixExpressionContext).PathExpression()
+		commandExprCtx, pathExpression := entryOf(blockStatement)
+		if commandExprCtx == nil {
+			// a variable declaration, an if statement and the like: not a dependency entry
+			continue
+		}
 		scope := pathExpression.GetChild(0).(antlr.ParseTree).GetText()
 
 		//  with quote testImplementation('org.springframework.boot:spring-boot-starter-test')
 		isWithQuote := pathExpression.GetChildCount() >= 2
 		if isWithQuote {
-			argumentsContext := pathExpression.GetChild(1).(*parser.PathElementContext).GetChild(0).(*parser.ArgumentsContext)
-			argListCtx := argumentsContext.GetChild(1).(*parser.EnhancedArgumentListContext)
-			for _, argElement := range argListCtx.AllEnhancedArgumentListElement() {
-				if text, ok := stringLiteralText(argElement); ok {
-					result = ConvertToJDep(text)
+			// constraints { ... } and other nested blocks have a closure here instead of arguments
+			if argListCtx := parenthesisedArguments(pathExpression.GetChild(1)); argListCtx != nil {
+				for _, argElement := range argListCtx.AllEnhancedArgumentListElement() {
+					if text, ok := stringLiteralText(argElement); ok {
+						result = ConvertToJDep(text)
+					}
 				}
 			}
 		}
 
 		// normal: developmentOnly 'org.springframework.boot:spring-boot-devtools'
 		if commandExprCtx.GetChildCount() >= 2 {
-			argumentListContext := commandExprCtx.GetChild(1).(*parser.ArgumentListContext)
-			result = BuildDependency(argumentListContext)
+			if argumentListContext, ok := commandExprCtx.GetChild(1).(*parser.ArgumentListContext); ok {
+				result = BuildDependency(argumentListContext)
+			}
 		}
 
 		if result != nil {
@@ -104,6 +109,45 @@ func buildBlockStatements(closureContext *parser.ClosureContext) []core_domain.C
 	}
 
 	return results
+}
+
+// entryOf returns the command expression of a statement of the form `configuration <arguments>` or
+// `configuration(<arguments>)` together with its path expression, and nil for every other statement.
+func entryOf(blockStatement antlr.Tree) (*parser.CommandExpressionContext, antlr.Tree) {
+	node := blockStatement
+	for i := 0; i < 3; i++ {
+		if node.GetChildCount() == 0 {
+			return nil, nil
+		}
+		node = node.GetChild(0)
+	}
+	commandExprCtx, ok := node.(*parser.CommandExpressionContext)
+	if !ok || commandExprCtx.GetChildCount() == 0 {
+		return nil, nil
+	}
+	postfixAlt, ok := commandExprCtx.GetChild(0).(*parser.PostfixExprAltForExprContext)
+	if !ok || postfixAlt.GetChildCount() == 0 {
+		return nil, nil
+	}
+	postfix, ok := postfixAlt.GetChild(0).(*parser.PostfixExpressionContext)
+	if !ok || postfix.PathExpression() == nil || postfix.PathExpression().GetChildCount() == 0 {
+		return nil, nil
+	}
+	return commandExprCtx, postfix.PathExpression()
+}
+
+// parenthesisedArguments returns the argument list of a path element `(<arguments>)`, or nil
+func parenthesisedArguments(node antlr.Tree) *parser.EnhancedArgumentListContext {
+	pathElement, ok := node.(*parser.PathElementContext)
+	if !ok || pathElement.GetChildCount() == 0 {
+		return nil
+	}
+	argumentsContext, ok := pathElement.GetChild(0).(*parser.ArgumentsContext)
+	if !ok || argumentsContext.GetChildCount() < 2 {
+		return nil
+	}
+	argListCtx, _ := argumentsContext.GetChild(1).(*parser.EnhancedArgumentListContext)
+	return argListCtx
 }
 
 func BuildDependency(argumentListContext *parser.ArgumentListContext) *core_domain.CodeDependency {
